@@ -18,8 +18,8 @@
 
 namespace {
 
-enum SK { PAUSE = 0, RESD, RESA, AW, LOCK, RELD, RELA, QPUSHD, QPUSHA, QPOP, DETD, DETA, STARTF, COAWAIT, RES2D, NSK };
-static const char *sk_names[] = {"pause", "resolve/discard", "resolve/await", "await", "lock", "release/discard", "release/await", "push/discard", "push/await", "pop", "detach/discard", "detach/await", "start()", "co_await-child", "resolve-both-merged/discard"};
+enum SK { PAUSE = 0, RESD, RESA, AW, LOCK, RELD, RELA, QPUSHD, QPUSHA, QPOP, DETD, DETA, STARTF, COAWAIT, RES2D, CSPD, CSPA, NSK };
+static const char *sk_names[] = {"pause", "resolve/discard", "resolve/await", "await", "lock", "release/discard", "release/await", "push/discard", "push/await", "pop", "detach/discard", "detach/await", "start()", "co_await-child", "resolve-both-merged/discard", "create_suspend_point(resolve)/discard", "create_suspend_point(resolve)/await"};
 struct Step {
     int k;
     int arg;  // future index or child id
@@ -162,13 +162,16 @@ struct Ref {
                 }
                 break;
             case RESD:
-            case RESA: {
+            case RESA:
+            case CSPD:  // coro_queue::create_suspend_point([&]{ resolve; }): what the resolution readied is taken back out
+            case CSPA:  // of the ready queue into a suspend point, which is then discarded / awaited - same outcome as RESD / RESA
+            {
                 std::vector<int> s;
                 if (!fut_resolved[st.arg]) {
                     fut_resolved[st.arg] = true;
                     s = take_waiters(st.arg);
                 }
-                if (st.k == RESD || s.empty()) {
+                if (st.k == RESD || st.k == CSPD || s.empty()) {
                     enqueue_batch(s);
                     cont();
                 } else
@@ -376,6 +379,11 @@ static cocls::async<void> actor(Env &e, int id) {
             case DETA: co_await actor(e, st.arg).detach(); break;
             case STARTF: e.cf[st.arg] << [&] { return actor(e, st.arg).start(); }; break;
             case COAWAIT: co_await actor(e, st.arg); break;
+            case CSPD: {
+                cocls::suspend_point<void> sp = cocls::coro_queue::create_suspend_point([&] { e.prom[st.arg](7); });
+                break;  // discarded
+            }
+            case CSPA: co_await cocls::coro_queue::create_suspend_point([&] { e.prom[st.arg](7); }); break;
             case RES2D: {
                 cocls::suspend_point<void> sp = e.prom[0](7);
                 sp << e.prom[1](7);
@@ -519,7 +527,7 @@ struct Gen {
             if (k == RES2D && nfut < 2) continue;
             if (k == COAWAIT && holds) continue;  // awaiting a child that needs the mutex we hold is a designed deadlock
             bool spawns = k == DETD || k == DETA || k == STARTF || k == COAWAIT;
-            int nargs = (k == RESD || k == RESA || k == AW) ? nfut : spawns ? N : 1;
+            int nargs = (k == RESD || k == RESA || k == AW || k == CSPD || k == CSPA) ? nfut : spawns ? N : 1;
             for (int arg = 0; arg < nargs; arg++) {
                 if (spawns) {
                     if (arg <= a || detached[(size_t)arg]) continue;
@@ -568,6 +576,7 @@ void seqx_run(seqx::Runner &R, const std::string &tier) {
     if (tier == "quick") {
         enumerate(R, 2, 3, 1, {PAUSE, RESD, RESA, AW, LOCK, RELD, RELA, QPUSHD, QPUSHA, QPOP, DETD, DETA, STARTF, COAWAIT});
         enumerate(R, 3, 2, 2, {PAUSE, RESD, RESA, AW, LOCK, RELD, RELA, QPUSHD, QPOP, DETD, DETA, STARTF, COAWAIT, RES2D});
+        enumerate(R, 3, 3, 1, {PAUSE, AW, DETD, CSPD, CSPA});
     } else {
         enumerate(R, 2, 3, 2, full);
         enumerate(R, 2, 4, 1, {PAUSE, RESD, RESA, AW, LOCK, RELD, RELA, DETD, DETA, STARTF, COAWAIT});
